@@ -54,8 +54,33 @@ def kClauses (a : Args) (f : List Shape → List Nat → Option String) : Option
   let parts ← (names.zip orders).mapM (fun (n, o) => (f ss o).map (fun t => s!" {n}={t}"))
   pure ("ok" ++ String.join parts)
 
+/-- `value@container` + hook events of one clause under the operand kinds (`refused` = does not compile) -/
+def fmtK (o : Option KOut) : String :=
+  match o with
+  | none => "nothing"
+  | some k =>
+    let v := match k.val with | some r => fmtNats r | none => "nothing"
+    let e := (if k.val.isSome && k.overflows > 0 then s!"!ev1:{k.overflows}" else "") ++
+             (if k.val.isSome && k.clamps > 0 then s!"!ev2:{k.clamps}" else "")
+    s!"{v}@{k.ty.tag}{e}"
+
+/-- the clauses under the operand kinds (request `k6t` of the generated harness) -/
+def kexprKinded (a : Args) : Option String := do
+  let ss ← a.natLists "shapes"
+  let ts ← a.get? "terms"
+  let ks := ((a.get? "kinds").getD "").splitOn ","
+  let bs ← a.natLists "bounds"
+  if ks.length ≠ ss.length ∨ bs.length ≠ ss.length then none
+  let env ← (ks.zip (ss.zip bs)).mapM (fun (k, s, b) => KShape.ofKind k s b)
+  let parts ← (ts.splitOn ",").mapM (fun (t : String) =>
+    match t.splitOn ":" with
+    | [n, e] => (BExpr.parse e).map (fun (x : BExpr) => s!" {n}={fmtK (x.keval env)}")
+    | _ => none)
+  pure ("ok" ++ String.join parts)
+
 def handle : Handler := fun op a =>
   match op with
+  | "kexprk" => orBad (kexprKinded a)
   | "kexpr" => orBad do
       let ss ← a.natLists "shapes"
       let ts ← a.get? "terms"
